@@ -372,6 +372,9 @@ class UserValidator(Validator[Any]):
     def __eq__(self, other: Any) -> bool:
         return type(self) is type(other) and self.id == other.id
 
+    def __hash__(self) -> int:          # value-hashable, like a frozen dataclass
+        return hash((UserValidator, self.id))
+
     def __repr__(self) -> str:
         return f"UserValidator({self.id})"
 
